@@ -176,6 +176,32 @@ Fin(items, c) ==
                [] OTHER -> FPre(it.f) \o Fin(it.kids, c) \o FPost(it.f))
        \o Fin(Tail(items), c)
 
+(* _finalize_expand step by step: one pass writes out every stored item that is in the text
+   (its stored arguments come into the text, still stored); passes are repeated by RULE
+     "fixpoint"  until the text no longer changes, i.e. nothing stored is left (the code; Fin
+                 above is its closed form, FinLaw below)
+     "flagTA"    only after a pass that wrote out a template call / argument reference
+     "two"       at most twice
+   (the last two are mistakes of this loop, kept for Demo_Nowiki_*.cfg: TLC finds the nested
+   context in which a placeholder is left).  Whatever is still stored at the end is in the
+   output as a placeholder character, "CK".                                              *)
+FinPass1(it, c) ==
+  IF it.t = "a" THEN <<it>>
+  ELSE CASE it.f = "N" -> At(Quote(c))
+         [] it.f = "sib" -> At(SibCall)
+         [] it.f \in {"dt", "da", "dl"} -> At(EntPre(it.f)) \o it.kids \o At(EntPost(it.f))
+         [] OTHER -> At(FPre(it.f)) \o it.kids \o At(FPost(it.f))
+RECURSIVE FinPass(_, _), FinLoop(_, _, _, _)
+FinPass(items, c) == IF items = <<>> THEN <<>> ELSE FinPass1(items[1], c) \o FinPass(Tail(items), c)
+Stored(items) == \E i \in 1..Len(items) : items[i].t = "n"
+StoredTA(items) == \E i \in 1..Len(items) : items[i].t = "n" /\ items[i].f \in {"T1", "sib", "if", "uc", "inv", "dt", "da", "ad"}
+FlatOut(items) == [i \in 1..Len(items) |-> IF items[i].t = "a" THEN items[i].v ELSE "CK"]
+FinLoop(items, c, rule, n) ==
+  IF ~Stored(items) THEN FlatOut(items)
+  ELSE IF (rule = "flagTA" /\ ~StoredTA(items)) \/ (rule = "two" /\ n = 2) THEN FlatOut(FinPass(items, c))   \* the last pass
+  ELSE FinLoop(FinPass(items, c), c, rule, n + 1)
+FinLaw(items, c) == FinLoop(items, c, "fixpoint", 1) = Fin(items, c)
+
 RECURSIVE NInput(_, _)
 NInput(fs, c) == IF fs = <<>> THEN NW(c) ELSE FPre(fs[1]) \o NInput(Tail(fs), c) \o FPost(fs[1])
 NRes(fs, o) == ER(Build(fs), TopMode(o), FALSE, o)        \* what expand_recurse hands to _finalize_expand
